@@ -16,7 +16,7 @@ func checkC19(w *World, r *Report) {
 	cg := w.CG()
 	ro := w.Roles()
 	r.Undecided = []string{"the core equality 'inflation x supply x dt / year = amount minted over dt' is arithmetic and is not decided; only the zero cases, the guard of the division and the origin of the operands are"}
-	r.Rule("C19.zero", "P7", "reported inflation is zero when the period start is after now (Minter.CalculateInflation), for the no-minting configuration (constant), and for every configuration whose end has passed (now after end => zero; now equal to end => either)", 4)
+	r.Rule("C19.zero", "P7", "reported inflation is zero when the period start is after now (Minter.CalculateInflation), for the no-minting configuration (constant), and for every configuration whose end has passed (now after end => zero; now equal to end => zero as well when the emission routine hands the period over at that instant - sibling agreement with Mint)", 6)
 	r.Rule("C19.units", "P9", "units of measure over SSA: in the two inflation formulas the year constant, the period length, the elapsed time and the step length are combined in one time scale and the rate returned is a pure number (amount x year / period / supply)", 2)
 	r.Rule("C19.start", "P6,P7", "= C02.start for the inflation query: the rate is computed for the current period (result #0 of the shared selection) from the start its predecessor's end gives (params.StartTime without predecessor) - the same start the emission uses", 2)
 	r.Rule("C19.select", "P7", "= C02.select: the period whose rate is reported is selected by sequence id over all configured periods, as the emission does", 18)
@@ -113,25 +113,45 @@ func checkC19(w *World, r *Report) {
 			}
 			return ""
 		}
-		// now after end (end set, supply positive) => zero
-		live := ReachUnder(impl, OrderEval(term, func(a, b string) (int, bool) {
-			rank := map[string]int{"end": 0, "now": 1}
-			if (a == "supply" && b == "zero") || (a == "zero" && b == "supply") {
-				if a == "supply" {
-					return 1, true
-				}
-				return -1, true
+		// now after end (end set, supply positive) => zero; now equal to end => zero when the emission routine hands the
+		// period over at that instant (sibling agreement: from the block in which Mint archives the period nothing more
+		// is emitted for it, so its reported rate is zero), either answer otherwise
+		for _, eqCase := range []bool{false, true} {
+			nowRank := 1
+			if eqCase {
+				nowRank = 0
 			}
-			return rankCmp(rank)(a, b)
-		}, func(t string) (bool, bool) { return false, t == "endptr" }))
-		ok := true
-		vals := live.LiveReturns(impl, 0)
-		for _, v := range vals {
-			if !isZeroDecValue(v) {
-				ok = false
+			live := ReachUnder(impl, OrderEval(term, func(a, b string) (int, bool) {
+				rank := map[string]int{"end": 0, "now": nowRank}
+				if (a == "supply" && b == "zero") || (a == "zero" && b == "supply") {
+					if a == "supply" {
+						return 1, true
+					}
+					return -1, true
+				}
+				return rankCmp(rank)(a, b)
+			}, func(t string) (bool, bool) { return false, t == "endptr" }))
+			ok := true
+			vals := live.LiveReturns(impl, 0)
+			for _, v := range vals {
+				if !isZeroDecValue(v) {
+					ok = false
+				}
+			}
+			if !eqCase {
+				r.Check(ok && len(vals) > 0, "C19.zero", name+": now after end => zero", w.Pos(impl.Pos()), "every live return is ZeroDec()", "a period whose end has passed still reports a non-zero inflation")
+				continue
+			}
+			hand, decided := mintHandOverAt(w, 0)
+			switch {
+			case !decided:
+				r.Unk("C19.zero", name+": now equal to end", w.Pos(impl.Pos()), "cannot decide whether the emission routine hands the period over at its end instant")
+			case hand:
+				r.Check(ok && len(vals) > 0, "C19.zero", name+": now equal to end => zero (the emission hands the period over at this instant)", w.Pos(impl.Pos()), "every live return is ZeroDec()", "at the very instant a period ends the emission routine archives it and emits nothing more for it, yet its reported inflation is still non-zero: the rate and the emission disagree on when the period is over")
+			default:
+				r.OK("C19.zero", name+": now equal to end => either (the emission keeps the period at this instant)", w.Pos(impl.Pos()), "either answer is consistent with the emission")
 			}
 		}
-		r.Check(ok && len(vals) > 0, "C19.zero", name+": now after end => zero", w.Pos(impl.Pos()), "every live return is ZeroDec()", "a period whose end has passed still reports a non-zero inflation")
 
 		// ---------- C19.formula (closed world) ----------
 		{
